@@ -55,8 +55,19 @@ func genC15(r *simrt.Rand, tier string) (Cfg, *Program) {
 			}
 		}
 	}
+	var late []Op
+	if r.Chance(30) {
+		// another (empty) queue is bound while the backlog is being drained: the selection
+		// among the queues that have jobs must go on as if nothing had happened
+		for k := r.Intn(6); k > 0; k-- {
+			late = append(late, Op{K: opYield})
+		}
+		late = append(late, Op{K: opBind, A: pick(r, memKinds)})
+	}
 	if static {
-		p.Tasks = append(p.Tasks, []Op{{K: opSettle}, {K: opResume}})
+		p.Tasks = append(p.Tasks, append([]Op{{K: opSettle}, {K: opResume}}, late...))
+	} else if len(late) > 0 {
+		p.Tasks = append(p.Tasks, late)
 	}
 	return c, p
 }
